@@ -1,9 +1,59 @@
 package vh
 
-import "pgregory.net/rapid"
+import (
+	"pgregory.net/rapid"
+)
 
-func smActions(kind string, actions map[string]func(*rapid.T)) map[string]func(*rapid.T) {
-	return actions
+// State machines built with StateMachineActions: menu types whose exported methods are actions (taking *T or
+// TB), the invariant (Check) and things that are not actions at all.
+
+type smBase struct {
+	acts  map[string]func(*rapid.T)
+	bogus func(name string)
+}
+
+func (s *smBase) run(name string, t *rapid.T) {
+	if f := s.acts[name]; f != nil {
+		f(t)
+	}
+}
+
+// smA: two *T actions, one TB action, Check, and non-action methods.
+type smA struct{ smBase }
+
+func (s *smA) A0(t *rapid.T)         { s.run("a0", t) }
+func (s *smA) A1(t rapid.TB)         { s.run("a1", t.(*rapid.T)) }
+func (s *smA) A2(t *rapid.T)         { s.run("a2", t) }
+func (s *smA) A3(t *rapid.T)         { s.run("a3", t) }
+func (s *smA) Check(t *rapid.T)      { s.run("", t) }
+func (s *smA) NotAnAction(x int) int { s.bogus("NotAnAction"); return x }
+func (s *smA) AlsoNot()              { s.bogus("AlsoNot") }
+func (s *smA) TwoArgs(t *rapid.T, n int) {
+	s.bogus("TwoArgs")
+}
+
+// smB: value receiver, TB-only actions.
+type smB struct{ b *smBase }
+
+func (s smB) A0(t rapid.TB)    { s.b.run("a0", t.(*rapid.T)) }
+func (s smB) A1(t rapid.TB)    { s.b.run("a1", t.(*rapid.T)) }
+func (s smB) A2(t rapid.TB)    { s.b.run("a2", t.(*rapid.T)) }
+func (s smB) A3(t rapid.TB)    { s.b.run("a3", t.(*rapid.T)) }
+func (s smB) Check(t *rapid.T) { s.b.run("", t) }
+func (s smB) Returns(t *rapid.T) error {
+	s.b.bogus("Returns")
+	return nil
+}
+
+// smActions wraps an actions map into a state machine object and lets the library derive the map again.
+// Methods of the menu type without a counterpart in actions run nothing, but are still selectable actions:
+// an action set built this way always has the menu type's action names.
+func smActions(kind string, actions map[string]func(*rapid.T), bogus func(string)) map[string]func(*rapid.T) {
+	base := smBase{acts: actions, bogus: bogus}
+	if kind == "B" {
+		return rapid.StateMachineActions(smB{b: &base})
+	}
+	return rapid.StateMachineActions(&smA{base})
 }
 
 func childMain() {}
